@@ -12,4 +12,5 @@ import JominiModel.Props.C16
 #print axioms Jomini.Props.C16.C16_content_value
 #print axioms Jomini.Props.C16.C16_total
 #print axioms Jomini.Props.C16.C16_total_decidable
-#print axioms Jomini.Props.C16.C16_total_arr_partial
+#print axioms Jomini.Props.C16.C16_content_array
+#print axioms Jomini.Props.C16.C16_total_all
